@@ -23,9 +23,16 @@ class ParallelEvaluator(Evaluator):
 
         from pathos.multiprocessing import ProcessingPool as Pool  # pyright: ignore
 
-        with Pool(len(indivs)) as pool:
-            fitnesses = pool.map(mapper, indivs)
-            for i, f in zip(indivs, fitnesses):
+        # Like the sequential evaluator: individuals that already have a fitness for this problem
+        # (and repeated occurrences of the same individual) are not evaluated again.
+        pending: list[Individual] = []
+        for i in indivs:
+            if not i.has_fitness(problem) and not any(i is p for p in pending):
+                pending.append(i)
+        if pending:
+            with Pool(len(pending)) as pool:
+                fitnesses = pool.map(mapper, pending)
+            for i, f in zip(pending, fitnesses):
                 i.set_fitness(problem, f)
                 self.register_evaluation()
-                yield i
+        yield from indivs
